@@ -6,12 +6,12 @@
    stdin  : "<case>\t<canonical impl result>"          (the canonical part may end in " RACE <site>" tokens put
                                                         there by the suite from the TSan reports)
    stdout : "<model result>\t<oracle(impl)>\t<oracle(model)>"
-   model result = canon_line (model_line case impl_raw)   -- the model run under the observed linearisation
+   model result = canon_line (render_trace (run_cops .. (parse_cline case) (fparse_trace impl_raw)))   -- the model run under the observed linearisation
                   followed by " TIE-DIFF ..." if the model's raw trace is not byte-identical to the implementation's,
                   by " CANON-DIFF" if the harness' canonical summary is not canon_line of its own raw trace,
                   by " FUNC-FAIL" if c25_ok rejects the implementation's raw trace, and by the RACE tokens of the
                   impl result (a data race is an implementation-only observable; the model has none).
-   oracle(impl)  = c25_ok_line case impl_raw && no RACE token;   oracle(model) = c25_ok_line case model_raw. *)
+   oracle(impl)  = c25_ok (parsed case) (parsed impl_raw) && no RACE token;   oracle(model) = c25_ok (parsed case) (model trace). *)
 let nlist_of_string (s : string) : n list =
   let r = ref [] in
   for i = String.length s - 1 downto 0 do r := n_of_int (Char.code s.[i]) :: !r done; !r
@@ -71,11 +71,15 @@ let () =
     let (canon_impl, races) = split_races impl in
     let c = nlist_of_string case in
     let rawl = nlist_of_string raw in
-    let mraw = model_line sc c rawl in
+    (* parse once; the oracle is applied to the parsed traces of both sides *)
+    let ops = parse_cline c in
+    let itr = fparse_trace rawl in
+    let mtr = run_cops sc world0 false ops itr in
+    let mraw = render_trace mtr in
     let mraw_s = string_of_nlist mraw in
     let m = string_of_nlist (canon_line c mraw) in
-    let oi_f = c25_ok_line c rawl in
+    let oi_f = c25_ok ops itr in
     let m = if mraw_s = raw then m else m ^ " TIE-DIFF " ^ first_diff raw mraw_s in
     let m = if string_of_nlist (canon_line c rawl) = canon_impl then m else m ^ " CANON-DIFF" in
     let m = if oi_f then m else m ^ " FUNC-FAIL" in
-    (m ^ races, oi_f && races = "", c25_ok_line c mraw))
+    (m ^ races, oi_f && races = "", c25_ok ops mtr))
